@@ -277,7 +277,7 @@ namespace internal
 		static void Remove(Array& array, size_t index, size_t count)
 		{
 			size_t initCount = array.GetCount();
-			MOMO_CHECK(index + count <= initCount);
+			MOMO_CHECK(index <= initCount && count <= initCount - index);
 			if (count == 0)
 				return;
 			MemManager& memManager = array.GetMemManager();
